@@ -36,6 +36,7 @@ impl Prop for Dispatch {
         if t.chance(1, 4) {
             cfg.packed_den = 2;
         }
+        cfg.big_vft_gaps = true;
         let (mut prog, _, _) = gen_prog(t, cfg);
         if t.chance(1, 5) {
             name_member_vftable(t, &mut prog);
@@ -79,6 +80,7 @@ impl Prop for TableLayout {
         cfg.base_num = 2;
         // doc comments before, after and between the attributes of a virtual function
         cfg.docs = true;
+        cfg.big_vft_gaps = true;
         let (prog, _, _) = gen_prog(t, cfg);
         l2c::Case { prog, w }
     }
